@@ -15,6 +15,7 @@ for d in seeded/C*/[a-z]; do
     [ "$d" = "seeded/C02/b" ] && extra="C02 C05"
     [ -f $d/also_checks ] && extra="$p $(cat $d/also_checks)"
     /venv/bin/python harness/seed_eval.py $p $d $extra 2>&1 | tail -1 >> $V/seeded/summary.$i.txt
+    [ -f $V/$d/meta.json ] && cp $V/$d/meta.json /verif/$d/meta.json
   fi
   k=$((k+1))
 done
